@@ -70,7 +70,8 @@ Record tables := mkTables {
   x_excl : tkind -> nkind -> bool;     (* isinstance(node, T.excluded_node_types)              *)
   x_loopdir : nat -> bool;             (* isinstance(dir, (OMPDoDirective, ACCLoopDirective))   *)
   x_acc : nat -> bool;                 (* isinstance(dir, ACCDirective)                         *)
-  x_par : nat -> bool                  (* isinstance(dir, (OMPParallelDirective, ACCParallelDirective)) *)
+  x_par : tkind -> nat -> bool;        (* T.validate: node.ancestor((OMPParallelDirective, ACCParallelDirective)) *)
+  x_loopchk : tkind -> bool            (* T.validate has "Loop without its parent Directive"     *)
 }.
 
 (* Node.walk: the node itself and all its descendants (Schedules are skipped by the caller) *)
@@ -134,11 +135,8 @@ Definition anc_is (f : nat -> bool) (a : anc) : bool := match a with ADir d => f
 
 (* extra checks of ExtractTrans.validate and ReadOnlyVerifyTrans.validate (NanTestTrans inherits) *)
 Definition extra_ok (T : tables) (t : tkind) (ancs : list anc) (sel : list stmt) : bool :=
-  match t with
-  | TProfile => true
-  | _ => negb (existsb is_loop sel && match ancs with ADir _ :: _ => true | _ => false end)
-         && negb (existsb (anc_is (x_par T)) ancs)
-  end.
+  negb (x_loopchk T t && existsb is_loop sel && match ancs with ADir _ :: _ => true | _ => false end)
+  && negb (existsb (anc_is (x_par T t)) ancs).
 
 Definition accept_with (T : tables) (t : tkind) (p : list stmt) (tg : target) (o : opts) : bool :=
   match locate (t_path tg) p [] with
@@ -304,7 +302,8 @@ Definition asfound_tables : tables :=
   mkTables (fun t k => existsb (nkind_eqb k) (asfound_excl t))
            (fun d => match d with 1 | 2 | 4 => true | _ => false end)
            (fun d => match d with 3 | 4 | 5 => true | _ => false end)
-           (fun d => match d with 0 | 2 | 3 => true | _ => false end).
+           (fun t d => match t with TProfile => false | _ => match d with 0 | 2 | 3 => true | _ => false end end)
+           (fun t => match t with TProfile => false | _ => true end).
 
 (* ------------------------------------------------------------------ executable helpers for the harness *)
 Fixpoint expr_eqb (a b : expr) {struct a} : bool :=
